@@ -83,10 +83,17 @@ func storeMachine(t *rapid.T, prop string, kind gen.StoreKind) {
 			n := rapid.IntRange(2, 8).Draw(t, "many")
 			for i := 0; i < n; i++ {
 				op := g.drawSimple(t, u.m.Total())
-				if rapid.IntRange(0, 2).Draw(t, "manyburst") == 0 {
+				switch rapid.IntRange(0, 5).Draw(t, "manykind") {
+				case 0, 1:
 					if b := g.burst(t); bud.Fits(u.m.Total() + float64(len(b))) {
 						op = sop{Kind: "burst", Burst: b}
 					}
+				case 2:
+					// other mutations that do not read the store either
+					gg := *g
+					gg.kinds = []string{"clear", "merge", "decmerge", "protomerge", "reweight", "copy"}
+					op = gg.drawOp(t, u)
+					cl.label("mutate-many:non-add")
 				}
 				cl.logf("%s", op)
 				if msg := u.apply(op); msg != "" {
@@ -96,6 +103,48 @@ func storeMachine(t *rapid.T, prop string, kind gen.StoreKind) {
 				steps++
 			}
 			cl.label("mutate-many")
+		},
+		"clear-refill-same-size": func(t *rapid.T) {
+			// Clear, then as many distinct indexes as the store held at its last read, with no read in between: the
+			// next read sees a different content of the same size (anything remembered across reads and keyed on the
+			// size is stale)
+			n := len(u.exp())
+			if n == 0 || n > 40 {
+				t.Skip("nothing to refill, or too much")
+			}
+			ops := []sop{{Kind: "clear"}}
+			seen := map[int]bool{}
+			total := 0.0
+			for tries := 0; len(seen) < n && tries < 20*n; tries++ {
+				i := g.index(t)
+				if seen[i] {
+					continue
+				}
+				w := 1.0
+				if rapid.Bool().Draw(t, "refillweighted") {
+					w = gen.Weight(false).Draw(t, "w")
+				}
+				if !bud.Fits(total + w) {
+					w = 0
+				}
+				if w == 0 {
+					continue
+				}
+				seen[i] = true
+				total += w
+				ops = append(ops, sop{Kind: "addw", Index: i, W: w})
+			}
+			if len(seen) != n {
+				t.Skip("could not draw enough distinct indexes")
+			}
+			for _, op := range ops {
+				cl.logf("%s", op)
+				if msg := u.apply(op); msg != "" {
+					t.Fatalf("%s %s after %s: %s", prop, kind, op, msg)
+				}
+				steps++
+			}
+			cl.label("clear-refill-same-size")
 		},
 		"read": func(t *rapid.T) {
 			k := rapid.IntRange(1, 8).Draw(t, "stopAt")
